@@ -20,7 +20,8 @@ CONSTANTS Mode, MaxLen,
           TrimMode,  \* "all": strings.Trim(subject, "()") as the code did; "pair": one matching pair of parentheses
           Wrap       \* the printer re-adds a pair of brackets around a bracketed subject (see ToStr)
 
-Chars == {"a", "b", ":", "#", "@", "(", ")"}
+\* two characters without meaning in the string form (a letter and a line break) and the five that have one
+Chars == {"a", "\n", ":", "#", "@", "(", ")"}
 Str(n) == UNION {[1..k -> Chars] : k \in 0..n}
 
 \* strings.Cut(s, c): <<before, after, found>>
@@ -79,7 +80,8 @@ RoundTrip(t) == InDom(t) => FromStr(ToStr(t)) = t
 \* field contents with separators in every position; values are enumerated by index tuples
 FieldSeq == << <<>>, <<"a">>, <<"a", "b">>, <<":">>, <<"a", ":">>, <<"#", "a">>, <<"(", "a">>, <<"a", ")">>, <<"@">>, <<"a", "#", "b">>,
               <<"a", ":", "/", "/", "b">>, <<"/", "a", ".", "b", "?", "c", "=", "d">>,   \* URL-like contents
-              <<".", ".", ".">> >>     \* the spelling other Zanzibar implementations give the "any relation" wildcard: an ordinary string here
+              <<".", ".", ".">>,
+              <<"a", "\n">>, <<"\n">> >>     \* a field that ends in a line break, a field that is one     \* the spelling other Zanzibar implementations give the "any relation" wildcard: an ordinary string here
 NF == Len(FieldSeq)
 NsSeq == << <<"a">>, <<":">> >>
 ObjSeq == << <<"a">>, <<"#", "a">> >>
@@ -92,7 +94,7 @@ ValueOf(v) == IF v.kind = "id" THEN T(FieldSeq[v.a], FieldSeq[v.b], FieldSeq[v.c
 
 \* strings are enumerated by (length, index) and decoded digit by digit, so that
 \* TLC does not have to build the set of all sequences first
-CharSeq == <<"a", "b", ":", "#", "@", "(", ")">>
+CharSeq == <<"a", "\n", ":", "#", "@", "(", ")">>
 RECURSIVE Pow7(_)
 Pow7(k) == IF k = 0 THEN 1 ELSE 7 * Pow7(k - 1)
 Decode(len, idx) == [i \in 1..len |-> CharSeq[((idx \div Pow7(i - 1)) % 7) + 1]]
